@@ -1,6 +1,7 @@
 //! Conformance harness for property C19 (simulated OS vs real OS), see
 //! /verif/DESIGN.md section 6 and spec/Kernel.tla.
 mod calls;
+mod scripts;
 
 fn main() {
     // children first: the mirror / true-entry-point shell of yvcommon::real and
@@ -22,6 +23,7 @@ fn main() {
         "replay" => calls::replay(rest),
         "random" => calls::random(rest),
         "redo" => calls::redo(rest),
+        "scripts" => scripts::scripts(rest),
         other => {
             eprintln!("unknown subcommand {other}");
             2
